@@ -289,7 +289,7 @@ func (b *Batcher) Add(event *Event) {
 
 	batch := b.getBatch()
 	batch.append(event)
-	verifTrace("b.add", uint64(event.Offset), verifBatcherID(b))
+	verifTrace("b.add", verifEventID(event), verifBatcherID(b))
 
 	b.trySendBatchAndUnlock(batch)
 }
